@@ -186,3 +186,46 @@ def reach(db, roots, boundary=None, maxfn=5000):
 BLOCKING = re.compile(r'^(std::atomic(_flag)?::wait|std::__atomic_base::wait|std::mutex::lock|std::recursive_mutex::lock|std::unique_lock::lock|std::lock_guard::lock_guard|std::unique_lock::unique_lock|'
                       r'std::scoped_lock::scoped_lock|std::condition_variable::wait(_until|_for)?|std::thread::join|std::this_thread::sleep_(for|until)|std::future::(wait|get)|'
                       r'pthread_\w+|sem_wait|futex)$')
+
+
+def interval_count(db, f, pred, cache=None, stack=(), tracer=None, follow=None):
+    """[min, max] of the number of events satisfying pred over the live entry->exit paths of f, where a call into a library
+    function (or an immediately invoked lambda) contributes that callee's own interval (bottom-up summaries, DESIGN 3.1)"""
+    from .core import STD_IMMEDIATE
+    cache = {} if cache is None else cache
+    k = (f['key'], f['inst'])
+    if k in cache:
+        return cache[k]
+    if k in stack:
+        return (0, 0)
+    T = tracer or Tracer(db, depth=0, limit=20000)
+    lo = None; hi = 0
+    trs = T.traces(f)
+    if T.truncated:
+        raise Broken('path bound exceeded in %s' % f['nname'])
+    for tr in trs:
+        if not live(tr):
+            continue
+        a = b = 0
+        for it in tr:
+            if it.k in ('branch', 'switch', 'abort', 'exception'):
+                continue
+            if pred(it):
+                a += 1; b += 1
+                continue
+            if it.k in ('call', 'construct'):
+                c = None
+                if it.get('callee_key'):
+                    c = db.get(it['callee_key'], it.get('callee_inst'))
+                elif STD_IMMEDIATE.get(norm(it.get('callee'))) is not None:
+                    for ar in it.get('args', []):
+                        if (ar.get('opath') or ar.get('path') or '').startswith('lambda@'):
+                            c = db.get((ar.get('opath') or ar['path'])[7:])
+                if c is not None and (follow is None or follow(c)):
+                    x, y = interval_count(db, c, pred, cache, stack + (k,), None, follow)
+                    a += x; b += y
+        lo = a if lo is None else min(lo, a)
+        hi = max(hi, b)
+    r = (lo or 0, hi)
+    cache[k] = r
+    return r
